@@ -84,4 +84,13 @@ def build(ctx):
                                 extra_flags=["--no-standard-checks"],
                                 desc="flat group numInGroup=%s blockLength=%s: operator[] address with the wire blockLength over the whole type range" % (n, b),
                                 bounds={"blockLength": "full %s range (< 2^47)" % b, "numInGroup": "full %s range" % n, "i": "< 4"}))
+    # nested groups (forward iteration, size_bytes and the cursor walk) with a wire blockLength beyond the range of a narrower numInGroup type
+    npairs = [("uint8", "uint16"), ("uint8", "uint64"), ("uint16", "uint16")] if ctx.quick else [("uint8", "uint16"), ("uint8", "uint32"), ("uint8", "uint64"), ("uint16", "uint16"), ("uint16", "uint32")]
+    un = ctx.lower("c12n", c12.cpp([], [n_ if n_ == b_ else "%s_%s" % (n_, b_) for (n_, b_) in npairs]), std="17", mode="checked", incs=[incd])
+    for (n, b) in npairs:
+        for arm in (0, 1, 4):
+            hs.append(P.Harness("wide_nested_%s_%s_arm%d_cxx17" % (n, b, arm), c12.nested_harness(un, n, 2, b, wide=True), [un], unwind=5, backends=["minisat", "kissat"], cap=ctx.q(300, 900),
+                                defines=["VERIF_WHICH=%d" % arm], extra_flags=["--no-standard-checks"], meta={"big_unwind": 700},
+                                desc="nested group (numInGroup %s / blockLength %s) under a large schema extension: wire blockLength 2 or 259, arm %d of {0 forward iteration, 1 size_bytes/front, 4 cursor_range walk + final cursor}" % (n, b, arm),
+                                bounds={"size": "0..2", "blockLength": "{2, 259}", "data_len": "0..2"}))
     return hs
